@@ -13,6 +13,7 @@ import (
 	"math/rand"
 	"strconv"
 	"strings"
+	"sync"
 
 	"github.com/bnb-chain/tss-lib/v2/crypto"
 	"github.com/bnb-chain/tss-lib/v2/crypto/vss"
@@ -226,6 +227,7 @@ type c15Scenario struct {
 	Tape   string   `json:"tape"`   // hex: first bytes of the random stream handed to Create
 	Seed   int64    `json:"seed"`   // rest of the stream, and the sampled alterations
 	Alter  bool     `json:"alter"`  // apply the single-component alterations (otherwise own-id verification and reconstructions)
+	Only   []int    `json:"only"`   // with Alter: the shares (indices) whose material is altered; empty = all
 	AltMax int      `json:"altmax"` // toy: altered ids / share values range over 0..AltMax exhaustively (0: sampled)
 	Label  string   `json:"label"`  // class of the dealing (coverage)
 }
@@ -243,6 +245,7 @@ type c15Line struct {
 	Ver    [][]any `json:"ver"`
 	Rec    [][]any `json:"rec"`
 	Recx   [][]any `json:"recx"`
+	X      int     `json:"x"` // 1: a line corrupted on purpose by the self test of the binding (must NOT be explained)
 }
 
 type c15Result struct {
@@ -341,7 +344,21 @@ type c15VCall struct {
 	nolog    bool   // cannot be written to the toy trace (nil vector ...)
 }
 
-func c15Run(cv *c15Curve, sc c15Scenario) (res *c15Result) {
+// c15Dedupe remembers which Verify-alteration blocks (threshold, commitments, id) and which ReConstruct inputs (ids and
+// share values of the subset) were already written to a toy trace: Verify sees one share and the commitments, ReConstruct
+// the listed shares, nothing else of the dealing, so the exhaustive enumeration meets the same arguments many times. Every
+// call is still made and judged; only the first occurrence is logged for TLC.
+type c15Dedupe struct{ m sync.Map }
+
+func (d *c15Dedupe) first(key string) bool {
+	if d == nil {
+		return true
+	}
+	_, loaded := d.m.LoadOrStore(key, true)
+	return !loaded
+}
+
+func c15Run(cv *c15Curve, sc c15Scenario, dd *c15Dedupe) (res *c15Result) {
 	res = &c15Result{Sc: sc, ByKind: map[string]int{}}
 	q := cv.Q
 	secret, ok := new(big.Int).SetString(sc.Secret, 10)
@@ -558,6 +575,10 @@ func c15Run(cv *c15Curve, sc c15Scenario) (res *c15Result) {
 
 	// ---- Verify calls
 	calls := c15VerifyCalls(cv, sc, rng, t, ids, shares, vs, vpts, a)
+	logAlt := make([]bool, n)
+	for i := range logAlt {
+		logAlt[i] = cv.Toy != nil && dd.first(fmt.Sprintf("V|%d|%s|%s", t, res.VsKey, ids[i]))
+	}
 	for _, c := range calls {
 		var got bool
 		sh := &vss.Share{Threshold: c.sthr, ID: c.id, Share: c.share}
@@ -605,7 +626,7 @@ func c15Run(cv *c15Curve, sc c15Scenario) (res *c15Result) {
 				res.viol(c.key, "Share.Verify on %s accepts a %s alteration [%s] of share %d (t=%d, n=%d, id %s)", cv.Name, c.kind, c.sub, c.i, t, n, core15Short(ids[c.i]))
 			}
 		}
-		if cv.Toy != nil && !c.nolog && len(res.Viols)+len(res.Drift) == before {
+		if cv.Toy != nil && !c.nolog && (c.kind == "own" || logAlt[c.i]) && len(res.Viols)+len(res.Drift) == before {
 			idv, ok1 := c15Int(c.id)
 			shv, ok2 := c15Int(c.share)
 			if !ok1 || !ok2 {
@@ -673,6 +694,15 @@ func c15Run(cv *c15Curve, sc c15Scenario) (res *c15Result) {
 			logv = v
 		}
 		if cv.Toy != nil {
+			key := fmt.Sprintf("R|%d", t)
+			for i := 0; i < n; i++ {
+				if mask&(1<<i) != 0 {
+					key += fmt.Sprintf("|%s:%s", ids[i], shares[i].Share)
+				}
+			}
+			if !dd.first(key) {
+				continue
+			}
 			one := make([]int, len(idx))
 			for m, i := range idx {
 				one[m] = i + 1
@@ -734,6 +764,15 @@ func c15VerifyCalls(cv *c15Curve, sc c15Scenario, rng *rand.Rand, t int, ids []*
 		out = append(out, own)
 		if !sc.Alter {
 			continue
+		}
+		if len(sc.Only) > 0 {
+			in := false
+			for _, o := range sc.Only {
+				in = in || o == i
+			}
+			if !in {
+				continue
+			}
 		}
 		add := func(c c15VCall) { out = append(out, c) }
 		// --- id
@@ -827,8 +866,9 @@ func c15VerifyCalls(cv *c15Curve, sc c15Scenario, rng *rand.Rand, t int, ids []*
 					}
 					repl(c.sub, cv.ecPoint(c.p), "", false)
 				}
+				o8 := 1 + 2*rng.Intn(4)
 				for ti, tp := range cv.Tors {
-					if ti == 0 {
+					if ti != 4 && ti != 2 && ti != o8 { // order 2, order 4, one of the four of order 8
 						continue
 					}
 					repl(fmt.Sprintf("+small-order-point(order %d)", 8/c15gcd(ti, 8)), cv.ecPoint(g.Add(vpts[k], tp)), "C15:Verify:accepts-commitment-with-small-order-component", false)
